@@ -5,6 +5,10 @@
 (* devOpen: connections the device currently holds open; eofSeen: the device*)
 (* saw end-of-stream on the last connection; inCtx: inside `async with`.    *)
 (* Operations are abstracted to "succeeds" / "raises".                      *)
+(* The device may also RESET the session in the middle of an operation      *)
+(* (sock = "reset": the client still counts as connected); disconnecting    *)
+(* such a session is outside the statement - the library raises and keeps   *)
+(* the flag (sock = "limbo", flag open) - but a later connect must work.    *)
 (***************************************************************************)
 EXTENDS Naturals, TLC
 CONSTANT MaxSteps
@@ -13,16 +17,27 @@ vars == <<sock, flag, devOpen, eofSeen, inCtx, steps, lastRaised>>
 Init == sock = "none" /\ flag = FALSE /\ devOpen = 0 /\ eofSeen = FALSE /\ inCtx = FALSE /\ steps = 0 /\ lastRaised = FALSE
 Tick == steps < MaxSteps /\ steps' = steps + 1
 
-Connect == /\ Tick /\ sock # "open" /\ ~inCtx
+Connect == /\ Tick /\ sock \notin {"open", "reset"} /\ ~inCtx
            /\ sock' = "open" /\ flag' = TRUE /\ devOpen' = devOpen + 1 /\ eofSeen' = FALSE /\ lastRaised' = FALSE /\ UNCHANGED inCtx
-ConnectRefused == /\ Tick /\ sock # "open" /\ ~inCtx
+ConnectRefused == /\ Tick /\ sock \notin {"open", "reset"} /\ ~inCtx
                   /\ lastRaised' = TRUE /\ UNCHANGED <<sock, flag, devOpen, eofSeen, inCtx>>
-Enter == /\ Tick /\ sock # "open" /\ ~inCtx
+Enter == /\ Tick /\ sock \notin {"open", "reset"} /\ ~inCtx
          /\ sock' = "open" /\ flag' = TRUE /\ devOpen' = devOpen + 1 /\ eofSeen' = FALSE /\ inCtx' = TRUE /\ lastRaised' = FALSE
-EnterRefused == /\ Tick /\ sock # "open" /\ ~inCtx /\ lastRaised' = TRUE /\ UNCHANGED <<sock, flag, devOpen, eofSeen, inCtx>>
+EnterRefused == /\ Tick /\ sock \notin {"open", "reset"} /\ ~inCtx /\ lastRaised' = TRUE /\ UNCHANGED <<sock, flag, devOpen, eofSeen, inCtx>>
 OpOk == Tick /\ sock = "open" /\ lastRaised' = FALSE /\ UNCHANGED <<sock, flag, devOpen, eofSeen, inCtx>>
 OpRaises == Tick /\ sock = "open" /\ lastRaised' = TRUE /\ UNCHANGED <<sock, flag, devOpen, eofSeen, inCtx>>
-Close == /\ sock' = IF sock = "open" THEN "closed" ELSE sock
+\* a connect() retried on a connected client and refused: nothing changes
+RefusedWhileConnected == Tick /\ sock = "open" /\ lastRaised' = TRUE /\ UNCHANGED <<sock, flag, devOpen, eofSeen, inCtx>>
+\* the device resets the session while an operation is under way: the operation fails, the device holds nothing any more,
+\* it has seen no end of stream, and the client is still "connected" until somebody disconnects it
+DeviceResets == /\ Tick /\ sock = "open" /\ sock' = "reset" /\ devOpen' = devOpen - 1 /\ lastRaised' = TRUE
+                /\ UNCHANGED <<flag, eofSeen, inCtx>>
+OpAfterReset == Tick /\ sock = "reset" /\ lastRaised' = TRUE /\ UNCHANGED <<sock, flag, devOpen, eofSeen, inCtx>>
+\* what the library does when asked to disconnect a session the device has reset: wait_closed() raises, the flag stays
+CloseAfterReset == /\ Tick /\ sock = "reset" /\ sock' = "limbo" /\ inCtx' = FALSE /\ lastRaised' = TRUE
+                   /\ flag' \in BOOLEAN /\ UNCHANGED <<devOpen, eofSeen>>
+Close == /\ sock \notin {"reset"}
+         /\ sock' = IF sock = "open" THEN "closed" ELSE sock
          /\ flag' = FALSE
          /\ devOpen' = IF sock = "open" THEN devOpen - 1 ELSE devOpen
          /\ eofSeen' = IF sock = "open" THEN TRUE ELSE eofSeen
@@ -30,14 +45,16 @@ Disconnect == Tick /\ ~inCtx /\ Close /\ lastRaised' = FALSE /\ UNCHANGED inCtx
 Leave == Tick /\ inCtx /\ Close /\ inCtx' = FALSE /\ lastRaised' = FALSE           \* leaving normally
 BodyRaises == Tick /\ inCtx /\ Close /\ inCtx' = FALSE /\ lastRaised' = TRUE        \* leaving through an exception in the body
 Next == Connect \/ ConnectRefused \/ Enter \/ EnterRefused \/ OpOk \/ OpRaises \/ Disconnect \/ Leave \/ BodyRaises
+        \/ RefusedWhileConnected \/ DeviceResets \/ OpAfterReset \/ CloseAfterReset
 Spec == Init /\ [][Next]_vars
 
-ConnectedIffOpen == flag <=> sock = "open"
+ConnectedIffOpen == sock = "limbo" \/ (flag <=> sock \in {"open", "reset"})
 NoLeakedConnection == devOpen = (IF sock = "open" THEN 1 ELSE 0)
 EofAfterClose == sock = "closed" => eofSeen
-DisconnectAlwaysPossible == (~inCtx /\ steps < MaxSteps) => ENABLED Disconnect
+DisconnectAlwaysPossible == (~inCtx /\ steps < MaxSteps) => ENABLED (Disconnect \/ CloseAfterReset)
 DisconnectIdempotent == [][(sock # "open" /\ ~inCtx /\ flag' = FALSE /\ sock' = sock /\ steps' = steps + 1 /\ devOpen' = devOpen)
                               => eofSeen' = eofSeen]_vars
-ReconnectPossible == (sock # "open" /\ ~inCtx /\ steps < MaxSteps) => ENABLED Connect
-RefusedLeavesDisconnected == [][(sock # "open" /\ sock' # "open" /\ lastRaised') => ~flag']_vars
+ReconnectPossible == (sock \notin {"open", "reset"} /\ ~inCtx /\ steps < MaxSteps) => ENABLED Connect
+ResetKeepsTheFlag == [][sock' = "reset" => flag']_vars
+RefusedLeavesDisconnected == [][(sock \in {"none", "closed"} /\ sock' # "open" /\ lastRaised') => ~flag']_vars
 =============================================================================
